@@ -39,6 +39,7 @@ type vfRoute struct {
 // vfCore is a fake gen.Core that records what the connection delivers to the node.
 type vfCore struct {
 	gen.Core
+	mu       sync.Mutex
 	name     gen.Atom
 	creation int64
 	calls    []vfRoute
@@ -59,7 +60,9 @@ func (c *vfCore) MakeRef() gen.Ref {
 	return gen.Ref{Node: c.name, Creation: c.creation, ID: [3]uint64{c.refs, 0, 0}}
 }
 func (c *vfCore) rec(r vfRoute) error {
+	c.mu.Lock()
 	c.calls = append(c.calls, r)
+	c.mu.Unlock()
 	if c.scribble && !lib.VerifSymbolic() {
 		// native replay of the use-after-release model: the pooled buffer is reused by someone else
 		var taken []*lib.Buffer
@@ -111,11 +114,15 @@ func (c *vfCore) RouteTerminatePID(target gen.PID, reason error) error {
 	return c.rec(vfRoute{kind: "terminate-pid", toPID: target, reason: reason})
 }
 func (c *vfCore) RouteSpawn(node gen.Atom, name gen.Atom, options gen.ProcessOptionsExtra, source gen.Atom) (gen.PID, error) {
+	c.mu.Lock()
 	c.calls = append(c.calls, vfRoute{kind: "spawn", toName: gen.ProcessID{Name: name, Node: source}, message: options})
+	c.mu.Unlock()
 	return gen.PID{Node: c.name, ID: 4242, Creation: c.creation}, c.result
 }
 func (c *vfCore) RouteApplicationStart(name gen.Atom, mode gen.ApplicationMode, options gen.ApplicationOptionsExtra, source gen.Atom) error {
+	c.mu.Lock()
 	c.calls = append(c.calls, vfRoute{kind: "appstart", toName: gen.ProcessID{Name: name, Node: source}, message: options})
+	c.mu.Unlock()
 	return c.result
 }
 func (c *vfCore) RouteNodeDown(node gen.Atom, reason error) {}
